@@ -7,11 +7,11 @@ HERE="$(cd "$(dirname "$0")/.." && pwd)"
 SEEDS="${*:-0 1 4 5}"
 S=$(mktemp -d "${VERIF_SCRATCH:-/dev/shm}/seedsweep_XXXXXX")
 PROPS=$(python3 -c "import json,sys;print(' '.join(c['property_id'] for c in json.load(open(sys.argv[1]))['checks']))" "$HERE/MANIFEST.json")
-for s in $SEEDS; do
+for s in $SEEDS; do   # TIER=thorough for the thorough commands
   (
     for p in $PROPS; do
       t0=$(date +%s)
-      VERIF_OUT="$S/$s" VERIF_SEED=$s "$HERE/check" $p --tier quick -v > "$S/$s.$p.log" 2>&1
+      VERIF_OUT="$S/$s" VERIF_SEED=$s "$HERE/check" $p --tier ${TIER:-quick} -v > "$S/$s.$p.log" 2>&1
       echo "$p seed=$s rc=$? $(( $(date +%s) - t0 ))s" >> "$S/$s.summary"
     done
   ) &
